@@ -271,6 +271,7 @@ func runC30(c *Ctx) error {
 		// an exchange written by the real writers (valid heads), or raw heads built by hand (hostile)
 		var stream []byte
 		var ops []string
+		written := map[int]string{} // index of the reading call -> what the writer was given (bodies)
 		hostile := c.Chance(1, 2)
 		nm := 1 + c.Intn(4)
 		for m := 0; m < nm; m++ {
@@ -328,6 +329,7 @@ func runC30(c *Ctx) error {
 				}
 				stream = append(stream, b...)
 				ops = append(ops, "rb")
+				written[len(ops)-1] = fmt.Sprintf("body:%d:%d:%s", bt[0], map[bool]int{true: 0, false: len(payload)}[bt != quicstreamheader.FixedLengthBodyType], c30hex(map[bool][]byte{true: nil, false: payload}[bt == quicstreamheader.EmptyBodyType]))
 				c.Count("message", fmt.Sprintf("body%d", bt[0]))
 			}
 		}
@@ -380,6 +382,10 @@ func runC30(c *Ctx) error {
 			o, ok := env.readOp(op, hb, cb)
 			outs = append(outs, o)
 			alive = ok
+			// what the real writer was given is what the real reader hands back: kind, announced length, payload
+			if w, isBody := written[len(outs)-1]; isBody && !hostile && o != w {
+				c.Violation("C30:body-not-read-back-as-written", fmt.Sprintf("message %d of the stream: written %s, read %s", len(outs)-1, w, o), map[string]interface{}{"stream": c30hex(stream), "ops": ops, "written": w, "read": o})
+			}
 			if o == "panic" {
 				c.Violation("C30:panic", fmt.Sprintf("reading call %s panicked on stream %s", op, c30hex(stream)), map[string]interface{}{"stream": c30hex(stream), "ops": ops})
 			}
